@@ -754,6 +754,22 @@ Next ==
 
 Spec == Init /\ [][Next]_vars
 
+\* ---- liveness (C04, C05, C07 at the level of the design) ---------------------------------
+\* Fairness: every goroutine of the library that can move eventually does; the applications
+\* go on with their scripts and the carrier goes on delivering (faults are not forced).
+Progress == Internal \/ Quiesce \/ (\E r \in RPCs : CliSkipOp(r) \/ SrvSkipOp(r) \/ CliEmitFail(r))
+Fair == /\ WF_vars(Progress)
+        /\ \A r \in RPCs : WF_vars(DrvOK /\ CliOpStart(r)) /\ WF_vars(DrvOK /\ SrvOpStart(r))
+        /\ WF_vars(DrvOK /\ CliDeliver) /\ WF_vars(DrvOK /\ SrvDeliver)
+LiveSpec == Init /\ [][Next]_vars /\ Fair
+
+\* every operation the caller's application starts returns, and its script runs to the end - whatever
+\* the handler does, wherever a cancel / Close / shutdown strikes (nothing hangs, no lost wake-up)
+CallerDone == \A r \in RPCs : CBusy(r) = "" /\ app[r].c.pc > Len(CScript[r])
+AllCallerOpsReturn == <>[]CallerDone
+\* every handler that was started ends (its operations return, by data, end of stream or its context)
+HandlersEnd == \A r \in RPCs : [](ss[r].h = "running" => <>(ss[r].h # "running"))
+
 \* the view hides nothing yet; history lives in the observation state
 ---------------------------------------------------------------------------
 (* Model-level properties (in addition to the Cxx_* formulas of TunnelObs) *)
